@@ -562,6 +562,18 @@ mut('c05-gen-anchor-label', 'C05', 'C05.GEN.label', azks, '''        Ok(NonMembe
             longest_prefix,''', '''        Ok(NonMembershipProof {
             label: longest_prefix,
             longest_prefix,''', 'proof states the anchor label instead of the queried label')
+mut('c07-chunks', 'C07', 'C07.H2', hist, '''    for count in 1..num_proofs {
+        // Make sure this proof is for a version 1 more than the previous one.''', '''    for count in (1..num_proofs).step_by(2) {
+        // Make sure this proof is for a version 1 more than the previous one.''', 'only every other adjacent pair is compared (seed C07-r2-a)')
+mut('c15-leq-oldest', 'C15', 'C15.TABLE[find_appropriate_item:LeqEpoch]', txn, '''            ValueStateRetrievalFlag::LeqEpoch(epoch) => intermediate
+                .into_iter()
+                .rev()
+                .find(|item| item.epoch <= epoch),''', '''            ValueStateRetrievalFlag::LeqEpoch(epoch) => intermediate
+                .into_iter()
+                .find(|item| item.epoch <= epoch),''', 'oldest instead of newest pending state (seed C15-r2-a)')
+mut('c19-blob-pairs', 'C19', 'C19.BLOB.pairs', 'akd/src/local_auditing.rs', '''        let current_hash = hashes[i + 1];
+        // The epoch provided''', '''        let current_hash = hashes[i];
+        // The epoch provided''', 'blob carries the wrong end hash')
 
 out = [m for m in M if not m.get('disabled')]
 json.dump({'mutants': out}, open(os.path.join(os.path.dirname(os.path.abspath(__file__)), 'mutants.json'), 'w'), indent=1)
